@@ -174,3 +174,24 @@ Example twin_parameter :
              {| lp_span := sp 4 31 4 37; lp_param := true; lp_file := 0; lp_under := None |}; {| lp_span := sp 4 43 4 50; lp_param := true; lp_file := 0; lp_under := None |}; {| lp_span := sp 4 52 4 59; lp_param := true; lp_file := 0; lp_under := None |}] in
   concerned es ps 3 (sp 4 34 4 37) = 2 /\ concerned es ps 3 (sp 4 46 4 50) = 3 /\ concerned es ps 1 (sp 4 34 4 37) = 2.
 Proof. vm_compute. repeat split. Qed.
+
+(* ... and it is innermost: no member of the element found contains the lint.  Parents come before their children (wf_ents), so
+   going inwards takes fewer steps than there are entities and the fuel given by `concerned` is enough. *)
+Lemma descend_innermost es ps s : wf_ents es -> forall fuel id, id < length es -> length es - id < fuel ->
+  find (is_child_at es ps (descend fuel es ps id s) s) (seq 0 (length es)) = None.
+Proof.
+  intros WF. induction fuel as [|f IH]; intros id Hid Hf; [lia|]. cbn [descend].
+  destruct (find (is_child_at es ps id s) (seq 0 (length es))) as [j|] eqn:E; [|exact E].
+  pose proof (find_some_child _ _ _ _ _ E) as [Hp Hj]. apply IH; [exact Hj|].
+  unfold parent_of in Hp. destruct (nth_error es j) as [e|] eqn:En; [|discriminate]. pose proof (WF j e id En Hp). lia.
+Qed.
+Theorem concerned_is_innermost es ps scope s : wf_ents es -> scope < length es ->
+  find (is_child_at es ps (concerned es ps scope s) s) (seq 0 (length es)) = None.
+Proof.
+  intros WF Hs. unfold concerned.
+  assert (K : forall start, start < length es -> find (is_child_at es ps (descend (S (length es)) es ps start s) s) (seq 0 (length es)) = None)
+    by (intros start H; apply descend_innermost; [exact WF|exact H|lia]).
+  destruct (nth_error ps scope) as [pl|]; [|apply K; exact Hs]. destruct (parent_of es scope) as [p|] eqn:Ep; [|apply K; exact Hs].
+  destruct (lp_param pl && negb (within s (lp_span pl))); [|apply K; exact Hs].
+  apply K. unfold parent_of in Ep. destruct (nth_error es scope) as [e|] eqn:En; [|discriminate]. pose proof (WF scope e p En Ep). lia.
+Qed.
